@@ -30,6 +30,11 @@ def scenarios(ck, thorough):
     for n in (1, 2, 3, 4):
         S.append("svc svc | at:1:40, wait:10, pauseunlock:%d:250, wait:60, drain:2000, wait:300" % n)
         S.append("svc svc | at:1:40, at:2:40, wait:10, pauseunlock:%d:200, wait:60, stop, wait:250" % n)
+    # stop -> reset -> start cycles: a timer cancelled (or left pending) before the restart, new timers afterwards - with the
+    # identifiers starting again - fire once, at their own deadlines
+    S.append("svc svc | at:1:60, cancel:1, restart, at:2:250, wait:400")
+    S.append("svc svc | at:1:80, at:2:40, wait:10, cancel:2, restart, at:3:200, at:4:30, wait:300, restart, at:5:20, wait:60")
+    S.append("svc svc | per:1:30, at:2:500, wait:70, restart, at:3:120, per:4:40, wait:200, cancel:4, wait:50")
     # plain life cycle
     S.append("svc svc | at:1:20, per:2:15, wait:100, cancel:2, cancel:1, wait:50")
     S.append("svc pool | at:1:10, at:2:30, cancel:2, wait:60, stop, late:3:5, wait:30")
